@@ -7,7 +7,7 @@ from props._hist import History, Fail, result_fail, sig_from_rec, std_replay
 PROP = "C05"
 LEVEL = "other"
 SELFTEST_PARTS = ("num",)
-WALL_BUDGET = {"quick": 1200, "thorough": 9000}
+WALL_BUDGET = {"quick": 3600, "thorough": 14400}
 ANSWERS = ["local/keep", "local/drop", "remote/keep", "remote/drop", "merged/drop", "merged/keep", "none", "raises", "not-a-tuple", "wrong-arity", "not-a-file", "empty-tuple", "zero"]
 BIG = b"x" * 3000
 CONTENTS = [(b"A", b"B"), (b"A", b"A"), (b"", b"B"), (b"A", b""), (b"", b""), (BIG + b"1", BIG + b"2"), (BIG, BIG)]
